@@ -1,5 +1,6 @@
 import CkbVerif.Driver.Util
 import CkbVerif.Model.SchedBook
+import CkbVerif.Model.SchedTx
 
 /-! Driver for the `sched` op of C05: replays the scheduler bookkeeping model
 (`Model/SchedBook.lean`) on the VM runs and messages observed through the `verif_hook` trace of
@@ -12,7 +13,7 @@ states, fds with owners, inherited fds, terminated VMs) and the final result.
                               run, `m:<kind>:<vm>[:a[:b]]` a message of the preceding run, `|` = the
                               API call returned `Suspended` here -/
 namespace CkbVerif.Driver.C05Sched
-open CkbVerif.Driver CkbVerif.SchedBook
+open CkbVerif.Driver CkbVerif.SchedBook CkbVerif.SchedTx
 
 def parseInt? (s : String) : Option Int :=
   if s.startsWith "-" then (parseNat? (s.drop 1).toString).map (fun n => - (n : Int))
@@ -80,35 +81,49 @@ def showEnd : RunEnd → String
   | .starved => "model-wants-another-run"
   | .wrongVm => "model-chooses-another-vm"
 
-/-- the log since `n` entries, oldest first -/
-def newOuts (s : Sch) (n : Nat) : List String := ((s.log.take (s.log.length - n)).reverse).map showOut
+/-- the decisions logged since the log had `n` entries, oldest first -/
+def newOuts (log : List Out) (n : Nat) : List String := ((log.take (log.length - n)).reverse).map showOut
 
-/-- one API call per (limit, events of that call) -/
-def drive : List Nat → List (List Ev) → Sch → Nat → List String → List String
-  | l :: ls, evs :: more, s, seen, acc =>
-    match run evs l s with
-    | (s1, .stopped .cyclesExceeded, rest) | (s1, .stopped .pause, rest) =>
-      if !rest.isEmpty then acc ++ newOuts s1 seen ++ ["model-stops-before-the-observed-call-does"]
-      else if more.isEmpty then acc ++ newOuts s1 seen ++ ["end:limits"]
-      else
-        match suspend s1 with
-        | .error _ => acc ++ newOuts s1 seen ++ ["end:err"]
-        | .ok (f, s2) =>
-          let acc := acc ++ newOuts s2 seen ++ [showFull f]
-          match resume f s2.log with
-          | .error _ => acc ++ ["end:err"]
-          | .ok s3 => drive ls more s3 s2.log.length acc
-    | (s1, e, rest) =>
-      acc ++ newOuts s1 seen ++
-        [if rest.isEmpty && more.isEmpty then showEnd e
-         else if rest.isEmpty then "model-ends-before-the-observed-run-does" else showEnd e ++ "!unused-runs"]
+/-- a `TransactionState`: group index, cycles of the completed groups, recorded limit, scheduler state -/
+def showTx (st : TxSt) : List String :=
+  [s!"T[g={st.current},cur={st.currentCycles},lim={st.limitCycles}]",
+   match st.full with
+   | some f => showFull f
+   | none => "S-"]
+
+def showTxEnd : TxEnd → String
+  | .completed c => s!"done:0:{c}"
+  | .suspended _ => "end:limits"
+  | .failed code g => s!"done:{code}@{g}"
+  | .stopped .deadlock g => s!"end:deadlock@{g}"
+  | .stopped _ g => s!"end:err@{g}"
+  | .other => "end:other"
+  | .overflow => "end:overflow"
+  | .mismatch r => showEnd r
+
+/-- one API call per (limit, events of that call): `resumable_verify` first, then
+`resume_from_state` from the state the previous call returned -/
+def drive (gs : List GKind) : List Nat → List (List Ev) → Option TxSt → List Out → List String → List String
+  | l :: ls, evs :: more, st, log, acc =>
+    let (r, rest, log') := match st with
+      | none => resumableVerify gs l evs log
+      | some st => resumeFromState gs st l evs log
+    let acc := acc ++ newOuts log' log.length
+    match r with
+    | .suspended st' =>
+      if !rest.isEmpty then acc ++ ["model-stops-before-the-observed-call-does"]
+      else if more.isEmpty then acc ++ ["end:limits"]
+      else drive gs ls more (some st') log' (acc ++ showTx st')
+    | e =>
+      acc ++ [if rest.isEmpty && more.isEmpty then showTxEnd e
+              else if rest.isEmpty then "model-ends-before-the-observed-run-does" else showTxEnd e ++ "!unused-runs"]
   | _, _, _, _, acc => acc ++ ["bad-op"]
 
-def schedOp (toks : List String) : String :=
+def schedOp (gs : List GKind) (toks : List String) : String :=
   match toks with
   | lims :: rest =>
     match parseNatList? lims, parseCalls rest [] [] with
-    | some ls, some calls => " ".intercalate (drive ls calls {} 0 [])
+    | some ls, some calls => " ".intercalate (drive gs ls calls none [] [])
     | _, _ => "bad-op"
   | _ => "bad-op"
 
